@@ -84,9 +84,18 @@ static std::string observe(MSSMNoFV_onshell* h, gm2calc::MSSMNoFV_onshell& M, ui
       int n1 = FNS[f].d1 ? FNS[f].d1 : 1, n2 = FNS[f].d2 ? FNS[f].d2 : 1;
       if ((sig == "double:H,U" && !FNS[f].d1) || ((sig == "double:H,U,U" || sig == "double:H,U,U,PD") && !FNS[f].d2)) { if (bad.empty()) bad = std::string("no dimension known for ") + FNS[f].name; continue; }
       for (int i = 0; i < n1; i++) for (int k = 0; k < n2; k++) {
-         int nl = is_str ? (int)(sizeof LENS / sizeof LENS[0]) : 1;
+         // string getters: fixed buffer lengths plus the lengths around the actual message length
+         // (exact fit, one short, one long), taken from the mirror
+         std::vector<unsigned> lens(1, 0u);
+         if (is_str) {
+            lens.assign(LENS, LENS + sizeof LENS / sizeof LENS[0]);
+            Args a0; a0.len = 1u << 20; Obs om; call_cxx(f, M, a0, om);
+            unsigned L = om.str.empty() ? 0 : (unsigned)om.str.size() - 1;   // strref appends '|'
+            for (int dl = -2; dl <= 2; dl++) if ((int)L + dl >= 0) lens.push_back(L + dl);
+         }
+         int nl = (int)lens.size();
          for (int l = 0; l < nl; l++) {
-            Args a; a.i = i; a.k = k; a.len = LENS[l];
+            Args a; a.i = i; a.k = k; a.len = lens[l];
             Obs oc, ox; guarded_c(f, h, a, oc); call_cxx(f, M, a, ox);
             bool eq = oc.v.size() == ox.v.size() && oc.str == ox.str;
             if (eq) for (size_t j = 0; j < oc.v.size(); j++) if (!same_double(oc.v[j], ox.v[j])) eq = false;
